@@ -98,7 +98,7 @@ def _work(items):
 
 
 def run(ctx):
-    cfgs = ["MC_Query_q1.cfg", "MC_Query_q2.cfg"] if ctx.quick else ["MC_Query_t1.cfg", "MC_Query_t2.cfg"]
+    cfgs = ["MC_Query_q1.cfg", "MC_Query_q2.cfg", "MC_Query_num.cfg"] if ctx.quick else ["MC_Query_t1.cfg", "MC_Query_t2.cfg", "MC_Query_num.cfg"]
     corpus = querycorpus.tlc_corpus(ctx, "MC_Query", cfgs)
     # C->S beyond the bound: seeded random documents (<= 25 nodes, depth <= 4) and paths of 1-4 segments;
     # TLC (Batch_Query) evaluates Sel and writes the texts; the cases join the same replay
